@@ -459,6 +459,8 @@ def verify_config(contract, cfg, both=False, z3_timeout=None):
             stt, pos_ = ex.truth(e_['_status'], q), e_['_pos']
             vcs.append(VC('mustfail:G-ok-negated', q.pc, stt == Not(oc.ok), 'mustfail', path=list(q.trace)))
             vcs.append(VC('mustfail:G-end-off-by-one', q.pc, pos_ == If(oc.ok, oc.end, pos_) + 1, 'mustfail', path=list(q.trace)))
+            for nm, g in (contract.mustfail(cx, ex, q, oc) if hasattr(contract, 'mustfail') else ()):
+                vcs.append(VC(f'mustfail:{nm}', q.pc, g, 'mustfail', path=list(q.trace)))
         res.paths = npaths
         res.uncovered = len(ex.all_stmts - ex.covered)
         res.stats = dict(ex.stats)
